@@ -42,6 +42,7 @@ type FuncContract struct {
 	Serves   []string
 	Requires []*Clause
 	Ensures  []*Clause
+	Given    []*Clause // facts assumed on entry and not demanded of callers (package-level constants etc.; listed as trusted)
 	Assumed  []*Clause // postconditions handed to callers but not checked against the body (listed as trusted)
 	Lets     []*SpecDef
 	Loops    map[int]*LoopSpec
@@ -85,6 +86,7 @@ type TypeContract struct {
 	Pkg     string
 	Guarded map[string][]string // mutex field -> guarded "Type.field" names
 	Closed  bool                // interface: every implementation is among the loaded packages (stated assumption)
+	Callbacks bool              // interface implemented by the application: its methods are assumed not to re-enter the repository's objects
 	Sent    *Clause             // message invariant over v (*T): asserted at every send, assumed at every receive
 }
 
@@ -99,7 +101,7 @@ type Contracts struct {
 
 var clauseKW = map[string]bool{"serves": true, "requires": true, "ensures": true, "let": true, "loop": true,
 	"assert": true, "safety": true, "inline": true, "atomic": true, "pure": true, "trusted": true, "guarded_by": true,
-	"uses": true, "opt": true, "split": true, "closed": true, "sent": true, "assumes": true}
+	"uses": true, "opt": true, "split": true, "closed": true, "sent": true, "assumes": true, "callbacks": true, "given": true}
 
 func fkey(pkg, name string) string { return pkg + " " + name }
 
@@ -260,6 +262,11 @@ func (cs *Contracts) loadFile(path, pkg string) error {
 				curT.Sent = cl
 				continue
 			}
+			if kw == "callbacks" {
+				curT.Callbacks = true
+				cs.Scan = append(cs.Scan, fmt.Sprintf("application callbacks through interface %s are assumed not to call back into, or write, the objects of the repository (frame: nothing)", curT.Name))
+				continue
+			}
 			if kw == "closed" {
 				curT.Closed = true
 				cs.Scan = append(cs.Scan, fmt.Sprintf("closed-world interface %s (calls through it write at most what its loaded implementations write)", curT.Name))
@@ -285,6 +292,13 @@ func (cs *Contracts) loadFile(path, pkg string) error {
 				return err
 			}
 			curF.Ensures = append(curF.Ensures, cl)
+		case "given":
+			cl, err := mkClause(rest, path, l.line)
+			if err != nil {
+				return err
+			}
+			curF.Given = append(curF.Given, cl)
+			cs.Scan = append(cs.Scan, fmt.Sprintf("fact assumed on entry of %s (not demanded of callers): %s", curF.Name, cl.Text))
 		case "assumes":
 			// a postcondition the callers may use that is NOT checked against the body
 			cl, err := mkClause(rest, path, l.line)
@@ -376,6 +390,9 @@ func (cs *Contracts) loadFile(path, pkg string) error {
 			kv := strings.SplitN(rest, "=", 2)
 			if len(kv) == 2 {
 				curF.Opts[strings.TrimSpace(kv[0])] = strings.TrimSpace(kv[1])
+				if strings.TrimSpace(kv[0]) == "frame" {
+					cs.Scan = append(cs.Scan, fmt.Sprintf("assumed frame of %s: %s (of the program heap it writes only objects it allocates)", curF.Name, strings.TrimSpace(kv[1])))
+				}
 			}
 		default:
 			return fmt.Errorf("%s:%d: unknown clause %q", path, l.line, kw)
